@@ -239,9 +239,11 @@ def Editor.wrapOpts (ed : Editor α) (width : Int) (o : Options α) : R (Editor 
   let o := o.withDefaults cx
   let width := if width < 2 then 2 else width
   if o.preservePara then
+    -- the stand-in for the separator's affixes must not occur in the line separator
+    let ph := cx.placeholder o.lineSep
     ed.applyParasM cx (fun _ para pre suf => do
-      let sepStart := gRepeat [cx.phA] (gLen cx pre)
-      let sepEnd := gRepeat [cx.phA] (gLen cx suf)
+      let sepStart := gRepeat [ph] (gLen cx pre)
+      let sepEnd := gRepeat [ph] (gLen cx suf)
       let ls ← wrapLines cx (sepStart ++ para ++ sepEnd) width o.lineSep
       let text := (Block.mk ls o.lineSep false).join
       let ss : Int := gLen cx sepStart
@@ -259,9 +261,11 @@ def Editor.wrapOpts (ed : Editor α) (width : Int) (o : Options α) : R (Editor 
 def Editor.justifyOpts (ed : Editor α) (width : Int) (o : Options α) : R (Editor α) := do
   let o := o.withDefaults cx
   if o.preservePara then
+    -- the stand-in for the separator's affixes must not occur in the line separator
+    let ph := cx.placeholder o.lineSep
     ed.applyParasM cx (fun _ para pre suf => do
-      let sepStart := gRepeat [cx.phA] (gLen cx pre)
-      let sepEnd := gRepeat [cx.phA] (gLen cx suf)
+      let sepStart := gRepeat [ph] (gLen cx pre)
+      let sepEnd := gRepeat [ph] (gLen cx suf)
       let bl := Block.new (sepStart ++ para ++ sepEnd) o.lineSep
       let n := bl.lines.length
       let bl ← bl.mapLinesM fun idx line =>
